@@ -438,6 +438,11 @@ def finish(b, extra_phys=False, master=None, meth=None):
         outs['DTstep'] = ocp.sample(ocp.DT, grid='integrator')[1]
         outs['DTcstep'] = ocp.sample(ocp.DT_control, grid='integrator')[1]
         outs['tsamp'] = ocp.sample(ocp.t, grid='integrator')[1]
+        try:
+            # refined integrator grid: every integrator step split in 3 equal parts
+            outs['tfine'], outs['tfinesamp'] = ocp.sample(ocp.t, grid='integrator', refine=3)
+        except Exception:
+            pass
     outs['T'] = ocp.value(ocp.T)
     outs['t0'] = ocp.value(ocp.t0)
     meth = meth if meth is not None else ocp._method
